@@ -32,7 +32,7 @@ MANIFEST = {
 SLOTS = {  # slot -> (default value, alternative values); 2.000008 / 1.000004 / 7e-9: updates that are tiny but not zero
     "a": (2.0, [1.0, 3.0, 2.0, 2.000008]), "d1": (-2.0, [4.0, 0.0, -4.0, 2.0]), "k": (1.0, [5.0, -3.0, 0.0, 1.000004, 7e-9]),
     "s1": (1.0, [3.0, -1.0, 0.0]), "r1": (1.0, [2.0, 0.5]), "t": (2.0, [1.0, -2.0, 4.0]), "e0": (1.0, [-2.0, 3.0]),
-    "q": (1.0, [3.0, 0.5, 2.0]),
+    "q": (1.0, [3.0, 0.5, 2.0]), "m": (2.0, [4.0, 2.0, 2.0]),
 }
 METHODS = ["auto", "SLSQP", "SLSQP", "trust-constr", "L-BFGS-B"]
 KINDS = ["value", "gradient", "jacobian", "hessian", "dict-function", "CompiledExpression"]
@@ -77,6 +77,9 @@ def build_recipes(slot_nodes, shape="A"):
     obj = S(["bin", "*", n["a"], _sq(X)], ["bin", "*", _c(2), _sq(Y)], ["bin", "*", X, Y],
             ["bin", "*", n["d1"], X], ["bin", "*", _c(1.5), Y], kk,
             _sq(V0), _sq(V1),
+            # a parameter as EXPONENT (even values: convex); the points of the histories often have y = 0, where the
+            # textbook a^b (b' ln a + b a'/a) rule is 0 * inf although the derivative is regular
+            ["bin", "*", _c(0.25), ["bin", "**", Y, n["m"]]],
             # a NumPy scalar on the LEFT of the parameter: np.float64(1) * e0 must stay symbolic
             ["un", "neg", ["bin", "*", ["bin", "*", ["const", "npfloat64", 1.0], n["e0"]], V0]], ["bin", "/", V1, n["t"]])
     cons = [
